@@ -5,7 +5,7 @@
 //   ps <restricted> <s>     tinyxml2::XMLPrinter::PrintString through PushAttribute (0) / PushText (1) -> <hex>
 //   xml <finding>           ErrorMessage::toXML                                   -> <hex>
 //   rd <finding>            ErrorMessage(XMLElement*) applied to tinyxml2's parse of toXML -> re-read fields
-//   str <verbose> <tf> <tl> <finding>   ErrorMessage::toString                    -> <hex>
+//   str <brk> <verbose> <tf> <tl> <finding>   ErrorMessage::toString (brk: model-side flag, ignored here) -> <hex>
 //   static <erase> <colors> <t>         substituteTemplateFormatStatic(t, erase)  -> <hex>   (colors: informational;
 //                                       the caller sets CLICOLOR_FORCE in the environment of the process)
 //   sarif <rawversion> <n> <finding>*   SarifReport::addFinding* ; serialize("")  -> <hex>
@@ -110,10 +110,10 @@ int main() {
             else if (f.size() >= 1 && f[0] == "xml") {
                 ErrorMessage m; size_t i = 1; bool premise = true;
                 if (mkFinding(f, i, m, premise) && i == f.size()) out = premise ? hex(m.toXML()) : "premise";
-            } else if (f.size() >= 4 && f[0] == "str") {
-                ErrorMessage m; size_t i = 4; bool premise = true;
+            } else if (f.size() >= 5 && f[0] == "str") {
+                ErrorMessage m; size_t i = 5; bool premise = true;
                 if (mkFinding(f, i, m, premise) && i == f.size())
-                    out = premise ? hex(m.toString(f[1] == "1", unhex(f[2]), unhex(f[3]))) : "premise";
+                    out = premise ? hex(m.toString(f[2] == "1", unhex(f[3]), unhex(f[4]))) : "premise";
             } else if (f.size() == 4 && f[0] == "static") {
                 std::string t = unhex(f[3]);
                 substituteTemplateFormatStatic(t, f[1] == "1");
